@@ -13,8 +13,9 @@ PYDEPS = os.path.join(ROOT, ".pydeps")
 if os.path.isdir(PYDEPS) and PYDEPS not in sys.path:
     sys.path.insert(0, PYDEPS)
 REPO = os.environ.get("VERIF_REPO", "/repo")
-EVIDENCE_DIR = os.path.join(ROOT, "evidence")
-REPLAY_DIR = os.path.join(ROOT, "replays")
+# (VERIF_EVIDENCE_DIR / VERIF_REPLAY_DIR: scratch locations for the parallel seed matrix, so that mutant runs never touch evidence/)
+EVIDENCE_DIR = os.environ.get("VERIF_EVIDENCE_DIR") or os.path.join(ROOT, "evidence")
+REPLAY_DIR = os.environ.get("VERIF_REPLAY_DIR") or os.path.join(ROOT, "replays")
 KNOWN_FINDINGS = os.path.join(ROOT, "known_findings.jsonl")
 
 
